@@ -352,6 +352,23 @@ func (s *sim) loop() {
 	cfg := s.cfg
 	for {
 		synctest.Wait()
+		// Calls of crashed incarnations fail at once and do not count as
+		// scheduling decisions: how many more calls a dying incarnation makes
+		// depends on which of two ready select cases Go picks (context done /
+		// stream closed), and that must not shift the schedule.
+		for {
+			failed := false
+			for _, p := range s.c.gate.Take() {
+				if s.m[p.member].dead[p.inc] {
+					s.c.gate.Fail(p)
+					failed = true
+				}
+			}
+			if !failed {
+				break
+			}
+			synctest.Wait()
+		}
 		if len(s.res.Violations) > 0 {
 			return
 		}
@@ -454,16 +471,6 @@ func (s *sim) loop() {
 		}
 		// ---- parked calls
 		parked := s.c.gate.Take()
-		failedDead := false
-		for _, p := range parked {
-			if s.m[p.member].dead[p.inc] {
-				s.c.gate.Fail(p)
-				failedDead = true
-			}
-		}
-		if failedDead {
-			continue
-		}
 		if len(parked) > 0 {
 			p := parked[s.pick(len(parked))]
 			if !p.write && s.inWindow() && cfg.RPCErrPct > 0 && s.rng.IntN(100) < cfg.RPCErrPct {
@@ -626,7 +633,7 @@ func (s *sim) onTx(member int, tx *transaction.Transaction, notaryMain bool) {
 		// inside one 100-block window must be identical (that is what lets the
 		// Notary service merge their signatures)
 		sc := tx.Script
-		if n := len(sc); n > 27 && sc[n-5] == 0x41 && sc[n-27] == 0x0c && sc[n-26] == 20 {
+		if n := len(sc); n > 40 && sc[n-5] == 0x41 && sc[n-27] == 0x0c && sc[n-26] == 20 && calledMethod(sc) == "update" {
 			target := fmt.Sprintf("%x", sc[n-25:n-5])
 			win := tx.Nonce / 100
 			k := fmt.Sprintf("%s/%d", target, win)
@@ -730,6 +737,20 @@ func (s *sim) bootstrapOld() bool {
 	// the fault window of the judged phase starts now
 	s.cfg.FaultBlocks += int(s.c.bc.BlockHeight())
 	return true
+}
+
+// calledMethod returns the method a plain System.Contract.Call script invokes
+// (… PUSHDATA1 method, PUSHDATA1 hash, SYSCALL), "" if it has another shape.
+// (A deployment script embeds an executable that itself contains the string
+// "update", so a substring search is not enough here.)
+func calledMethod(sc []byte) string {
+	n := len(sc)
+	for l := 1; l <= 40 && n-27-l-2 >= 0; l++ {
+		if sc[n-27-l-2] == 0x0c && int(sc[n-27-l-1]) == l {
+			return string(sc[n-27-l : n-27])
+		}
+	}
+	return ""
 }
 
 var judgedMethods = []string{"deploy", "update", "register", "registerTLD", "addRecord", "setRecord", "deleteRecords", "designateAsRole", "setAdmin"}
